@@ -49,21 +49,20 @@ Section Ring.
   Local Notation wf_t := (wf_t R r0 r1 radd rmul ropp).
   Local Notation Mm := (mm r0 radd rmul).
 
-  (* (2) from_matrix44 on a fresh object followed by as_affine reproduces the
-     matrix, for every class, every 4x4 affine matrix and BOTH outcomes of
-     every determinant-sign test (the sign fixes (-R) S (-Q) = R S Q and
-     -(R S (-Q)) = R S Q with _direct = False; A = -(-A) for Rigid,
-     s ((-A)/s) negated for Similarity), given the factorisation contract
-     (U diag(s) V = A for the SVD; s <> 0 for the cube root). *)
+  (* (2) from_matrix44 followed by as_affine reproduces the matrix on ANY object,
+     whatever its previous state (`prior` = value of _direct before the call,
+     the previous 12-vector is overwritten), for every class, every 4x4 affine
+     matrix and BOTH outcomes of every determinant-sign test (the sign fixes
+     (-R) S (-Q) = R S Q and -(R S (-Q)) = R S Q with _direct = False;
+     A = -(-A) for Rigid, s ((-A)/s) negated for Similarity), given the
+     factorisation contract (U diag(s) V = A for the SVD; s <> 0 for the cube
+     root).  Relies on the `self._direct = True` that opens each from_matrix44
+     (FxSetDirect true in the generated programs; /repo 37323b5): without it
+     the proof fails for prior = false. *)
   Theorem svd_sign_fix_reconstructs :
-    forall k o M, In k class_names -> wf_aff r0 r1 3 3 M -> fx_contract k o M ->
-    exists x, from_matrix44 k true o M = Some x /\ x_class x = k /\ as_affine x = M.
-  Proof.
-    intros k o M Hk HM HC.
-    destruct (reconstructs_lemma R r0 r1 radd rmul rsub ropp rdiv rneg Rth rdiv_mul k true o M Hk HM HC)
-      as (x & E & Hc & Hr).
-    exists x. auto.
-  Qed.
+    forall k prior o M, In k class_names -> wf_aff r0 r1 3 3 M -> fx_contract k o M ->
+    exists x, from_matrix44 k prior o M = Some x /\ x_class x = k /\ as_affine x = M.
+  Proof. exact (reconstructs_lemma R r0 r1 radd rmul rsub ropp rdiv rneg Rth rdiv_mul). Qed.
 
   (* every well-shaped transform has a well-formed homogeneous matrix *)
   Theorem as_affine_wellformed : forall x : xf, wf_xf R x -> wf_t x.
@@ -151,17 +150,17 @@ Section Signs.
      both matrices handed to rotation_mat2vec are proper (det = +1), and
      _direct ends False exactly when det U * det V (the sign of det A) is -1. *)
   Theorem sign_fix_factors_proper_affine :
-    forall k o M x, In k class_names -> lookup k src_fx_owner = Some "Affine"%string ->
+    forall k prior o M x, In k class_names -> lookup k src_fx_owner = Some "Affine"%string ->
     fx_contract k o M -> is_pm1 (det3 (o_U R o)) -> is_pm1 (det3 (o_V R o)) ->
-    from_matrix44 k true o M = Some x ->
+    from_matrix44 k prior o M = Some x ->
     det3 (x_R x) = r1 /\ det3 (x_Q x) = r1 /\
     x_direct x = negb (rneg (rmul (det3 (o_U R o)) (det3 (o_V R o)))).
   Proof. exact (affine_factors_proper R r0 r1 radd rmul rsub ropp rdiv rneg Rth rneg_one rneg_mone). Qed.
 
   Theorem sign_fix_factors_proper_rigid :
-    forall k o M x, In k class_names -> lookup k src_fx_owner = Some "Rigid"%string ->
+    forall k prior o M x, In k class_names -> lookup k src_fx_owner = Some "Rigid"%string ->
     wf_aff r0 r1 3 3 M -> is_pm1 (det3 (lin_part R M)) ->
-    from_matrix44 k true o M = Some x ->
+    from_matrix44 k prior o M = Some x ->
     det3 (x_R x) = r1 /\ det3 (x_Q x) = r1 /\ x_direct x = negb (rneg (det3 (lin_part R M))).
   Proof. exact (rigid_factors_proper R r0 r1 radd rmul rsub ropp rdiv rneg Rth rneg_one rneg_mone). Qed.
 
@@ -198,20 +197,12 @@ Definition zcompose := compose Z 0%Z 1%Z Z.add Z.mul Z.sub Z.opp Z.div zneg.
 Definition zo : fx_oracle Z := Build_fx_oracle [] [] [] 1%Z.
 Definition zI3 : list (list Z) := [[1; 0; 0]; [0; 1; 0]; [0; 0; 1]]%Z.
 
-(* FINDING (from_matrix44/stale-direct-flag): from_matrix44 only ever sets
-   _direct = False.  Called on an object whose _direct is already False
-   (after it held a reflection) with a matrix of positive determinant, the
-   flag stays False and as_affine returns the matrix with negated linear part. *)
-Theorem from_matrix44_stale_direct_refuted :
-  exists k o M x,
-    In k class_names /\ wf_aff 0%Z 1%Z 3 3 M /\ fx_contract Z 0%Z Z.add Z.mul k o M /\
-    zfrom k false o M = Some x /\ zas x <> M.
-Proof.
-  exists "Rigid"%string, zo, (mid 0%Z 1%Z 4).
-  eexists. split; [vm_compute; tauto|]. split; [apply (mid_wf_aff Z 0%Z 1%Z 3)|].
-  split; [exact I|]. split; [vm_compute; reflexivity|]. vm_compute. discriminate.
-Qed.
-Print Assumptions from_matrix44_stale_direct_refuted.
+(* the former finding from_matrix44/stale-direct-flag (repaired in /repo 37323b5): an object that held a
+   reflection (_direct = False) and is given the identity now describes the identity *)
+Example from_matrix44_reused_object_concrete :
+  option_map (fun x => (x_direct x, zas x)) (zfrom "Rigid"%string false zo (mid 0%Z 1%Z 4))
+  = Some (true, mid 0%Z 1%Z 4).
+Proof. vm_compute. reflexivity. Qed.
 
 (* the selection table itself (36 pairs), as computed from the source tables *)
 Example compose_class_table :
@@ -232,4 +223,14 @@ Example compose_concrete :
   option_map (fun c => (x_class c, x_direct c, zas c)) (zcompose a b (Build_fx_oracle [] [] [] 2%Z))
   = Some ("Similarity"%string, false,
           [[0; 2; 0; 1]; [-2; 0; 0; 2]; [0; 0; -2; 8]; [0; 0; 0; 1]]%Z).
+Proof. vm_compute. reflexivity. Qed.
+
+(* non-vacuity of the sign fixes: a reflection diag(1,2,-3) through the SVD
+   variant with U = I, s = (1,2,3), V = diag(1,1,-1): _direct becomes False,
+   Q = -V = diag(-1,-1,1) is proper, as_affine gives the matrix back *)
+Example from_matrix44_reflection_concrete :
+  let M := [[1; 0; 0; 4]; [0; 2; 0; 5]; [0; 0; -3; 6]; [0; 0; 0; 1]]%Z in
+  let o := Build_fx_oracle zI3 [1; 2; 3]%Z [[1; 0; 0]; [0; 1; 0]; [0; 0; -1]]%Z 1%Z in
+  option_map (fun x => (x_direct x, x_Q x, zas x)) (zfrom "Affine"%string true o M)
+  = Some (false, [[-1; 0; 0]; [0; -1; 0]; [0; 0; 1]]%Z, M).
 Proof. vm_compute. reflexivity. Qed.
